@@ -11,6 +11,9 @@ for lg in logs:
         mid, pid, rc, rest = m.groups()
         v = re.search(r"VIOLATION property=\S+ replay=\S+\s+obligation (\S+): \S+ :: (.*?)(?= VIOLATION| INCONCLUSIVE|$)", rest)
         if v: verdict, by, what = "caught", v.group(1), v.group(2).strip()[:140]
+        elif rc == "1" and "VIOLATION" in rest:
+            v2 = re.search(r"VIOLATION property=\S+ replay=\S+\s+obligation (\S+?):", rest)
+            verdict, by, what = "caught", (v2.group(1) if v2 else ""), "(log line truncated)"
         elif "INCONCLUSIVE" in rest:
             i = re.search(r"obligation=(\S+) \((.*)", rest)
             verdict, by, what = "inconclusive", i.group(1) if i else "", (i.group(2) if i else rest)[:140]
